@@ -145,21 +145,21 @@ pub fn eval(c: &FaultCase) -> Outcome {
     let mut n_scripts = 0u64;
     if c.exhaustive {
         'outer: for call in 0..r.n_calls {
-            for kind in 0..7u8 {
+            for kind in 0..8u8 {
                 n_scripts += 1;
                 if !run_one(&mut o, Script::FailAtCall { call, kind }, nsamples >= 2 && call > 0) {
                     break 'outer;
                 }
             }
             n_scripts += 1;
-            if !run_one(&mut o, Script::FailOnceAtCall { call, kind: (call % 6) as u8 }, nsamples >= 2 && call > 0) {
+            if !run_one(&mut o, Script::FailOnceAtCall { call, kind: [0u8, 1, 2, 3, 4, 5, 7][call % 7] }, nsamples >= 2 && call > 0) {
                 break 'outer;
             }
         }
         if o.violations.is_empty() {
             for offset in 0..n {
                 n_scripts += 1;
-                let kind = (offset % 7) as u8;
+                let kind = (offset % 8) as u8;
                 if !run_one(&mut o, Script::FailAtByte { offset, kind }, nsamples >= 2 && offset > 0) {
                     break;
                 }
@@ -170,19 +170,19 @@ pub fn eval(c: &FaultCase) -> Outcome {
         for k in 0..40usize {
             let offset = (k * 7919 + 13) % n.max(1);
             n_scripts += 1;
-            if !run_one(&mut o, Script::FailAtByte { offset, kind: (k % 7) as u8 }, nsamples >= 2 && offset > 0) {
+            if !run_one(&mut o, Script::FailAtByte { offset, kind: (k % 8) as u8 }, nsamples >= 2 && offset > 0) {
                 break;
             }
             let call = (k * 31 + 1) % r.n_calls.max(1);
             n_scripts += 1;
-            if !run_one(&mut o, Script::FailOnceAtCall { call, kind: (k % 6) as u8 }, nsamples >= 2 && call > 0) {
+            if !run_one(&mut o, Script::FailOnceAtCall { call, kind: [0u8, 1, 2, 3, 4, 5, 7][k % 7] }, nsamples >= 2 && call > 0) {
                 break;
             }
         }
     }
     if o.violations.is_empty() {
         for (pattern, terminal) in &c.schedules {
-            let terminal = terminal.map(|(off, k)| ((off as usize) % n.max(1), k % 7));
+            let terminal = terminal.map(|(off, k)| ((off as usize) % n.max(1), k % 8));
             n_scripts += 1;
             if !run_one(&mut o, Script::Schedule { pattern: pattern.clone(), terminal }, nsamples >= 2) {
                 break;
@@ -269,7 +269,7 @@ pub fn def() -> PropertyDef {
         id: "C13",
         level: "fault_enumeration",
         rule: "for each generated small history (video-only, A/V, reordered, fast start on/off, metadata) a fault-free reference run records its K sink \
-               write calls and N bytes; then EVERY write-call index x 8 failure modes (6 sticky ErrorKinds, Ok(0), one transient hard error) and EVERY byte offset in 0..N is injected, \
+               write calls and N bytes; then EVERY write-call index x 9 failure modes (7 sticky ErrorKinds incl. TimedOut and WouldBlock, Ok(0), one transient hard error) and EVERY byte offset in 0..N is injected, \
                plus generated schedules of short writes and finitely many Interrupted results with/without a terminal failure; a second sub-check samples \
                fault points on larger histories. Clauses: no panic, finish errs iff a write ultimately failed, accepted bytes are a prefix of the \
                reference (equal when Ok, bytes_written equal), no sink write and no successful call after the finish. Non-trivial = fault strictly inside \
